@@ -4,7 +4,7 @@ import warnings
 import numpy as np
 
 from . import _rfa as R
-from .. import tol
+from .. import callform, tol
 from ..core import fp_watch
 
 PROPERTY = "C16"
@@ -108,16 +108,17 @@ def run_case(ctx, kind_, idx):
                 else:
                     wv = Weaver(x.copy(), y.copy())
             if mode == "to_function":
-                f = wv.to_function()
+                f = wv.to_function() if rng.integers(0, 2) else \
+                    callform.call(rng, wv.to_function, "Weaver.to_function", [], {"s": 0}, p_pos=0.5)      # 0 is the documented default
                 got = np.asarray(f(x), dtype=float)
                 mid = (x[:-1] + x[1:]) / 2
                 got_mid = np.asarray(f(mid), dtype=float)
             elif mode == "smooth":
-                wv.smooth(s)
+                callform.call(rng, wv.smooth, "Weaver.smooth", [s], p_kw=0.3)
             elif mode == "smooth_zero":
                 wv.smooth(0)
             else:
-                f = spline_smooth(x.copy(), y.copy())
+                f = callform.call(rng, spline_smooth, "process.spline_smooth", [x.copy(), y.copy()], p_kw=0.3)
                 got = np.asarray(f(x), dtype=float)
         if any(issubclass(w.category, RuntimeWarning) for w in wlog):
             ctx.discard("fitpack_warning")
